@@ -377,7 +377,11 @@ impl NetcodeServer {
             let packet = Packet::Payload(payload);
             let len = packet.encode(&mut self.out, self.protocol_id, Some((client.sequence, &client.send_key)))?;
             client.sequence += 1;
-            client.last_packet_send_time = self.current_time;
+            // Until the client confirmed the connection it may still be waiting for the keep-alive that tells it
+            // that it is connected (it ignores payloads before that): payloads must not postpone that keep-alive
+            if client.confirmed {
+                client.last_packet_send_time = self.current_time;
+            }
 
             return Ok((client.addr, &mut self.out[..len]));
         }
